@@ -11,6 +11,7 @@ import (
 	"fmt"
 	"io"
 	"os"
+	"runtime"
 	"strings"
 	"sync/atomic"
 	"time"
@@ -91,6 +92,8 @@ type c07Loaded struct {
 	res  loadResult
 	src  *src.Source
 	data []byte
+	// the metadata was dropped (and a collection forced) right after the load
+	mdDropped, mdWasOK bool
 }
 
 func c07Load(data []byte, cs c07Case) c07Loaded {
@@ -107,7 +110,7 @@ func c07Load(data []byte, cs c07Case) c07Loaded {
 				name := f.Name()
 				rd = f
 				defer func() { _ = os.Remove(name) }()
-				l := c07Loaded{cs, loadWith(cs.Loader, rd), src.New(nil), data}
+				l := c07Loaded{cs: cs, res: loadWith(cs.Loader, rd), src: src.New(nil), data: data}
 				// drain now: the file is removed when this function returns
 				if l.res.Stream != nil {
 					func() {
@@ -132,7 +135,7 @@ func c07Load(data []byte, cs c07Case) c07Loaded {
 					_, _ = pw.Write(data[:cs.Cut])
 					_ = pw.Close()
 				}()
-				l := c07Loaded{cs, loadWith(cs.Loader, pr), src.New(nil), data}
+				l := c07Loaded{cs: cs, res: loadWith(cs.Loader, pr), src: src.New(nil), data: data}
 				if l.res.Stream != nil {
 					func() {
 						defer func() {
@@ -152,29 +155,35 @@ func c07Load(data []byte, cs c07Case) c07Loaded {
 		case "strings.Reader":
 			sr := strings.NewReader(string(whole))
 			_, _ = sr.Seek(int64(cs.SeekPrefix), io.SeekStart)
-			return c07Loaded{cs, loadWith(cs.Loader, sr), src.New(nil), data}
+			return c07Loaded{cs: cs, res: loadWith(cs.Loader, sr), src: src.New(nil), data: data}
 		case "bufio.Reader": // a buffered reader from which the caller has already taken the prefix byte by byte
 			bb := bufio.NewReaderSize(bytes.NewReader(whole), 64)
 			for i := 0; i < cs.SeekPrefix; i++ {
 				_, _ = bb.ReadByte()
 			}
-			return c07Loaded{cs, loadWith(cs.Loader, bb), src.New(nil), data}
+			return c07Loaded{cs: cs, res: loadWith(cs.Loader, bb), src: src.New(nil), data: data}
+		case "limited:-1", "limited:0":
+			// an io.LimitedReader whose limit is negative (a ContentLength of -1 handed to io.LimitReader)
+			// or zero: a valid reader that delivers nothing
+			var n int64
+			fmt.Sscanf(cs.Seeker, "limited:%d", &n)
+			return c07Loaded{cs: cs, res: loadWith(cs.Loader, io.LimitReader(bytes.NewReader(data), n)), src: src.New(nil), data: data}
 		case "len-source":
 			// a prefetch wrapper: the first bytes sit in a buffer whose length it reports through Len(),
 			// the rest is still to come from the connection behind it
 			k := cs.SeekPrefix % (cs.Cut + 1)
 			ls := &lenSource{head: bytes.NewBuffer(append([]byte{}, data[:k]...)), rest: c07Source(data[k:], c07Case{Cut: cs.Cut - k, Terminal: "eof", Schedule: "7"})}
-			return c07Loaded{cs, loadWith(cs.Loader, ls), src.New(nil), data}
+			return c07Loaded{cs: cs, res: loadWith(cs.Loader, ls), src: src.New(nil), data: data}
 		}
 		br := bytes.NewReader(whole)
 		_, _ = br.Seek(int64(cs.SeekPrefix), io.SeekStart)
-		return c07Loaded{cs, loadWith(cs.Loader, br), src.New(nil), data}
+		return c07Loaded{cs: cs, res: loadWith(cs.Loader, br), src: src.New(nil), data: data}
 	}
 	s := c07Source(data, cs)
 	if cs.Bufio > 0 {
-		return c07Loaded{cs, loadWith(cs.Loader, bufio.NewReaderSize(s, cs.Bufio)), s, data}
+		return c07Loaded{cs: cs, res: loadWith(cs.Loader, bufio.NewReaderSize(s, cs.Bufio)), src: s, data: data}
 	}
-	return c07Loaded{cs, loadWith(cs.Loader, s), s, data}
+	return c07Loaded{cs: cs, res: loadWith(cs.Loader, s), src: s, data: data}
 }
 
 // replayed carries an already drained stream (bytes, then its terminal error).
@@ -201,6 +210,9 @@ func c07Readout(l c07Loaded) (kind, msg string, mdOK bool) {
 		return "nil-stream", fmt.Sprintf("%s.Load returned a nil stream (cut %d of %s, %s)", cs.Loader, cs.Cut, cs.Seed, cs.Terminal), false
 	}
 	mdOK = l.res.Err == nil && l.res.MD != nil
+	if l.mdDropped {
+		mdOK = l.mdWasOK
+	}
 	var got []byte
 	var rerr error
 	var bounded bool
@@ -355,6 +367,48 @@ func c07CutClass(t imggen.Truth, cut, total int) string {
 func runC07(r *core.Run) {
 	r.Rule = "for each seed file (generated PNG/JPEG/WebP with and without profiles, the repository's small files, garbage, empty) every prefix length x 4 loaders x terminal {EOF, sticky I/O error, final data together with EOF, final data together with the error} x delivery schedule {all-at-once, 1 byte, seeded random; thorough adds 2,3,7,4095,4096,4097 and mutated seeds}; the stream is drained with buffers of 1, 7 or 32768 bytes, immediately or after up to 3 further loads (deferred read-out, so that recycled buffers show); non-trivial = distinct (loader, seed, cut class, terminal, schedule, metadata-success) other than cuts beyond the needed data with successful metadata"
 	r.Assumptions = []string{"the source is sticky: once it has failed it keeps returning the same error", "faults enter only through the io.Reader handed to Load"}
+	if strings.HasPrefix(r.Variant, "bounded") {
+		// small inputs at the limits of what the formats allow (255 ICC chunks, all present; 255 chunks
+		// of 255 announced; chunk numbers 255 of 255 first): each load is a matter of microseconds, and
+		// the parent treats a child that has not answered within its bound as a loader that never returned
+		var files []genFile
+		for _, total := range []int{255, 254, 128, 127} {
+			for _, order := range []string{"ascending", "descending"} {
+				var segs []imggen.JPEGSeg
+				var prof []byte
+				for i := 1; i <= total; i++ {
+					k := i
+					if order == "descending" {
+						k = total + 1 - i
+					}
+					segs = append(segs, imggen.ICCChunkSeg(k, total, []byte{byte(k)}))
+				}
+				for i := 1; i <= total; i++ {
+					prof = append(prof, byte(i))
+				}
+				b, t := imggen.JPEGSpec{Precision: 8, W: 5, H: 7, Comps: imggen.StdComps(1, 1, 1), Before: segs, ICC: prof, ICCState: "ok", Entropy: []byte{1}}.Build()
+				files = append(files, genFile{fmt.Sprintf("jpeg with %d one-byte ICC chunks, %s", total, order), b, t})
+				b2, t2 := imggen.JPEGSpec{Precision: 8, W: 5, H: 7, Comps: imggen.StdComps(1, 1, 1), After: segs, ICC: prof, ICCState: "ok", Entropy: []byte{1}}.Build()
+				files = append(files, genFile{fmt.Sprintf("jpeg with %d one-byte ICC chunks after SOF, %s", total, order), b2, t2})
+			}
+		}
+		var n int64
+		for _, f := range files {
+			for _, loader := range []string{"jpegmeta", "autometa"} {
+				fmt.Fprintf(os.Stderr, "bounded: %s through %s\n", f.Name, loader)
+				for _, cut := range []int{len(f.Bytes), len(f.Bytes) - 3, len(f.Bytes) / 2} {
+					cs := c07Case{Seed: f.Name, Cut: cut, Terminal: "eof", Schedule: "all", Loader: loader, ReadBuf: 7}
+					n++
+					if kind, msg, _ := c07Readout(c07Load(f.Bytes, cs)); kind != "" {
+						cs.File = base64.StdEncoding.EncodeToString(f.Bytes)
+						r.Violate("prefix", loader+"/"+kind+"/bounded", msg, cs)
+					}
+				}
+			}
+		}
+		r.AddEvals(n)
+		return
+	}
 	if strings.HasPrefix(r.Variant, "markers") {
 		// a fresh process in which eight goroutines at once load streams with marker codes, chunk names
 		// and FourCCs nothing in the process has met before (every code twice, by two goroutines), and
@@ -520,7 +574,8 @@ func runC07(r *core.Run) {
 						// that reports the length of its buffered part only
 						extras = append(extras, extraUnit{ji, 0, l, "seek", core.Pick(rg, []string{"bytes.Reader", "strings.Reader", "bufio.Reader"})},
 							extraUnit{ji, cut, l, "seek", core.Pick(rg, []string{"strings.Reader", "bufio.Reader"})},
-							extraUnit{ji, cut, l, "seek", "len-source"})
+							extraUnit{ji, cut, l, "seek", "len-source"},
+							extraUnit{ji, 0, l, "seek", core.Pick(rg, []string{"limited:-1", "limited:0"})})
 					}
 					extras = append(extras, extraUnit{ji, cut, l, "sched", core.Pick(rg, []string{"zn1", "zn7", "zn64"})})
 					extras = append(extras, extraUnit{ji, cut, l, "drain", fmt.Sprintf("copy@%d", rg.Intn(64))}, extraUnit{ji, cut, l, "bufio", core.Pick(rg, []string{"16", "4096", "65536"})},
@@ -573,6 +628,16 @@ func runC07(r *core.Run) {
 						cs.ReadBuf = 7
 					}
 					pending = append(pending, c07Load(j.seed.Bytes, cs))
+					if ui%509 == 7 {
+						// the caller lets go of the metadata, keeps the stream, and the collector runs before
+						// the next loads: whatever the metadata object owned is not the stream's to lose
+						pending[len(pending)-1].mdWasOK = pending[len(pending)-1].res.Err == nil && pending[len(pending)-1].res.MD != nil
+						pending[len(pending)-1].mdDropped = true
+						pending[len(pending)-1].res.MD = nil
+						runtime.GC()
+						runtime.Gosched()
+						runtime.GC()
+					}
 					if len(pending) >= 1+rg.Intn(4) {
 						flush()
 					}
@@ -734,7 +799,29 @@ func runC07(r *core.Run) {
 		for _, v := range []string{"markers@8", "markers@2", "markers@16"} {
 			r.RunVariantChild(v, 5*time.Minute, false)
 		}
-		r.Obs("fresh_process_variants", []string{"markers@8", "markers@2", "markers@16"})
+		r.Obs("fresh_process_variants", []string{"markers@8", "markers@2", "markers@16", "bounded@2"})
+		// the bounded child: no answer within three minutes (for 48 loads of files under 3 KiB) is a
+		// loader that did not return
+		{
+			so, se, code, timedOut, err := core.RunSelfChild(3*time.Minute, []string{fmt.Sprintf("VERIF_SEED=%d", r.Seed), "VERIF_TIER=" + r.Tier, "GOMAXPROCS=2"}, r.Prop, "bounded@2")
+			switch {
+			case err != nil:
+				r.Inconclusive(fmt.Sprintf("variant bounded@2: cannot run child: %v", err))
+			case r.MergeChildOutput(so, "bounded@2", false):
+			case timedOut:
+				last := ""
+				for _, line := range strings.Split(string(se), "\n") {
+					if strings.HasPrefix(line, "bounded: ") {
+						last = line[len("bounded: "):]
+					}
+				}
+				r.Violate("prefix", "never-returned/bounded", fmt.Sprintf("a load had not returned after three minutes; the child was in: %s", last), c07Case{Seed: last, Terminal: "eof", Schedule: "all"})
+			case bytes.Contains(se, []byte("panic:")) || bytes.Contains(se, []byte("fatal error:")):
+				r.Violate("variant", "crash [bounded@2]", fmt.Sprintf("child process for variant bounded@2 died (exit %d):\n%s", code, truncate(string(se), 2500)), map[string]any{"variant": "bounded@2"})
+			default:
+				r.Inconclusive(fmt.Sprintf("variant bounded@2: child exit %d without result", code))
+			}
+		}
 	}
 	r.Obs("outcomes_terminal_x_metadata_success", outcomes)
 	r.Obs("seed_files", len(jobs))
